@@ -207,7 +207,7 @@ func (boundary) Describe() core.EngineInfo {
 		Real:       []string{"goatlang NewFunc adapters, call/callReady, mkFunc, newMethod, VM.Call/Func/Set/Get, constructors and accessors, slices.SortFunc native"},
 		Stubs:      []string{"host natives are the simulator's (they are the seam)", "SimDisk serves the script"},
 		Assumes:    []string{"an untyped constant passed to a native arrives as goatlang's untyped number: payload compared, type not", "scalars, nil and slices of scalars only", "natives that break their own declared result count are host bugs and are not injected"},
-		ProbesWant: []string{"form_1", "form_2", "form_3", "form_4", "form_5", "form_6", "ctx_stmt", "ctx_stmtret", "ctx_assign", "ctx_expr", "ctx_nested", "ctx_fnvar", "ctx_loop", "ctx_viafn", "ctx_method", "ctx_objmethod", "ctx_reenter", "ctx_recurse", "ctx_sort", "hostcall_swap", "hostcall_variadic", "hostcall_reuse", "hostcall_redefine", "round_2", "fault_propagated", "fault_handled", "hostcall_ok", "hostcall_too_many", "spread"},
+		ProbesWant: []string{"form_1", "form_2", "form_3", "form_4", "form_5", "form_6", "ctx_stmt", "ctx_stmtret", "ctx_assign", "ctx_expr", "ctx_nested", "ctx_fnvar", "ctx_loop", "ctx_viafn", "ctx_method", "ctx_objmethod", "ctx_reenter", "ctx_recurse", "ctx_sort", "hostcall_swap", "hostcall_variadic", "hostcall_reuse", "hostcall_redefine", "hostcall_consts", "hostcall_structs", "big_literal_arg", "round_2", "fault_propagated", "fault_handled", "hostcall_ok", "hostcall_too_many", "spread"},
 	}
 }
 
@@ -249,12 +249,23 @@ func (e boundary) genPlan(r *core.PRNG) *BPlan {
 		if n.Form <= 2 {
 			cnt = 0
 		}
+		fixed := cnt
+		if n.Form == 6 {
+			fixed = n.Argc - 2
+		}
 		for i := 0; i < cnt; i++ {
 			switch k := r.Intn(10); {
 			case k < 5:
 				args = append(args, BArg{Kind: "pool", N: r.Intn(len(bPool))})
 			case k < 7:
-				args = append(args, BArg{Kind: "lit", Lit: BVal{K: "untyped", I: int64(r.Intn(2000) - 1000)}})
+				lit := int64(r.Intn(2000) - 1000)
+				if i < fixed && r.Chance(1, 4) {
+					// an integer constant beyond int32, written directly in a fixed argument position
+					// (colours, nanoseconds, ...); variadic positions are left alone: those are packed
+					// with the default type int, where such a constant does not fit
+					lit = core.Pick(r, []int64{4278190080, 1700000000000, 1 << 31, -3000000000, math.MaxInt32, math.MinInt32, math.MaxUint32, 1 << 40})
+				}
+				args = append(args, BArg{Kind: "lit", Lit: BVal{K: "untyped", I: lit}})
 			case k < 8:
 				args = append(args, BArg{Kind: "lit", Lit: core.Pick(r, []BVal{{K: "string", S: "lit"}, {K: "bool", I: 1}, {K: "float64", F: 2.5}, {K: "nil"}})})
 			case k < 9 && ctx == "loop":
@@ -384,6 +395,12 @@ func (e boundary) genPlan(r *core.PRNG) *BPlan {
 			h = BHostCall{Fn: "redefine", A: r.Intn(6)}
 			a = 3
 		}
+		if r.Chance(1, 8) {
+			h = BHostCall{Fn: "consts", B: r.Intn(1000), Func: r.Bool()}
+		}
+		if r.Chance(1, 8) {
+			h = BHostCall{Fn: "structs", B: r.Intn(1000000)}
+		}
 		np := h.A
 		if h.Fn == "redefine" {
 			np = 3
@@ -499,6 +516,14 @@ func (p *BPlan) render() string {
 	ln("func typed(a int, b string, c float64, d bool, e byte) (int, string, float64, bool, byte) { return a, b, c, d, e }")
 	ln("func vid(a any, rest ...any) (any, int, any) { if len(rest) > 0 { return a, len(rest), rest[len(rest)-1] }; return a, 0, nil }")
 	ln("func pass1(a any, b any) any { return a }")
+	for i, k := range bConsts {
+		ln("func k%d() (%s) { %s }", i, k.types, k.body)
+	}
+	ln("type T2 struct { A int; B string; C float64 }")
+	ln("func setA(t *T2, v int) { t.A = v }")
+	ln("func sumT2(t *T2) int { return t.A + len(t.B) }")
+	ln("func mkT2() *T2 { return &T2{} }")
+	ln("func mkT2B(b string) *T2 { return &T2{B: b} }")
 	// callbacks and methods wrap an inner site
 	for si, s := range p.Sites {
 		switch s.Ctx {
@@ -731,6 +756,9 @@ func (run *bRun) expectArg(a BArg, site int) (BVal, bool) {
 	case "pool":
 		return bPool[a.N], true
 	case "lit":
+		if a.Lit.K == "untyped" && (a.Lit.I > math.MaxInt32 || a.Lit.I < math.MinInt32) {
+			run.h.C.Inc("big_literal_arg")
+		}
 		return a.Lit, true
 	case "loop":
 		return BVal{K: "int32", I: int64(run.siteInv[site] - 1)}, true
@@ -1060,6 +1088,36 @@ func (run *bRun) hostCall(hc *BHostCall) {
 		}
 		return
 	}
+	if hc.Fn == "consts" {
+		// script functions whose results are constants of several declared types: each result
+		// arrives with its own declared type and the value written
+		run.h.C.Inc("hostcall_consts")
+		i := hc.B % len(bConsts)
+		k := bConsts[i]
+		name := fmt.Sprintf("main.k%d", i)
+		var rets []goatlang.Value
+		var err error
+		if hc.Func {
+			rets, err = run.h.Func(run.h.VM.Get(name), len(k.want))
+		} else {
+			rets, err = run.h.Call(name, len(k.want))
+		}
+		if err != nil || len(rets) != len(k.want) {
+			run.fail("C19/count", "consts-failed", "%s declared (%s) asked for %d results: got %d, %v", name, k.types, len(k.want), len(rets), err)
+			return
+		}
+		for j := range rets {
+			if !k.want[j].matches(rets[j]) {
+				run.fail("C19/roundtrip", "const-result", "func %s() (%s) { %s }: result %d reached the host as %s, want %s", name, k.types, k.body, j+1, describe(rets[j]), k.want[j])
+				return
+			}
+		}
+		return
+	}
+	if hc.Fn == "structs" {
+		run.hostStructs(hc)
+		return
+	}
 	if hc.Fn == "reuse" {
 		// the host keeps one parameter slice (with spare capacity, as append leaves it) and
 		// calls twice with it: both calls must see the parameters the host put there
@@ -1166,6 +1224,115 @@ func (run *bRun) hostCall(hc *BHostCall) {
 					run.fail("C19/roundtrip", want[i].K, "%s: parameter %d built as %s came back as %s", name, i+1, want[i], describe(rets[i]))
 					return
 				}
+			}
+		}
+	}
+}
+
+// bConsts: script functions returning constants, with the values and dynamic types the host must see.
+var bConsts = []struct {
+	types, body string
+	want        []BVal
+}{
+	{"uint8, int", "return 1, 300", []BVal{{K: "uint8", I: 1}, {K: "int32", I: 300}}},
+	{"int, float64", "return 1, 3000000000", []BVal{{K: "int32", I: 1}, {K: "float64", F: 3e9}}},
+	{"float64, int", "return 1, 7", []BVal{{K: "float64", F: 1}, {K: "int32", I: 7}}},
+	{"int8, uint32, string, float64", "return -3, 4000000000, \"s\", 2", []BVal{{K: "int8", I: -3}, {K: "uint32", I: 4000000000}, {K: "string", S: "s"}, {K: "float64", F: 2}}},
+	{"byte, float64, int, bool", "x := 9; return 200, 0.5, x, true", []BVal{{K: "uint8", I: 200}, {K: "float64", F: 0.5}, {K: "int32", I: 9}, {K: "bool", I: 1}}},
+	{"string, int8, int", "return \"a\", 100, 100000", []BVal{{K: "string", S: "a"}, {K: "int8", I: 100}, {K: "int32", I: 100000}}},
+	{"uint32, uint8, float64", "return 250, 250, 250", []BVal{{K: "uint32", I: 250}, {K: "uint8", I: 250}, {K: "float64", F: 250}}},
+}
+
+// hostStructs: instances built with NewStruct (with and without initial data), written through
+// SetAttr and by script functions, next to instances the script builds itself: every instance
+// keeps its own fields.
+func (run *bRun) hostStructs(hc *BHostCall) {
+	run.h.C.Inc("hostcall_structs")
+	r := core.NewPRNG(core.Mix(uint64(hc.B), 0x57))
+	base := run.h.VM.Get("main.T2")
+	type inst struct {
+		v goatlang.Value
+		a int
+		b string
+		c float64
+	}
+	var insts []*inst
+	n := 3 + r.Intn(12)
+	for step := 0; step < n; step++ {
+		what := ""
+		k := r.Intn(9)
+		if len(insts) == 0 && k >= 3 && k != 7 {
+			k = 0
+		}
+		switch {
+		case k < 3:
+			in := &inst{}
+			var data []goatlang.Value
+			if r.Chance(1, 3) {
+				in.a = 1 + r.Intn(1000)
+				data = append(data, goatlang.String("A"), goatlang.Int(in.a))
+				if r.Bool() {
+					in.b = fmt.Sprintf("s%d", r.Intn(100))
+					data = append(data, goatlang.String("B"), goatlang.String(in.b))
+				}
+			}
+			in.v = goatlang.NewStruct(base, data)
+			insts = append(insts, in)
+			what = fmt.Sprintf("NewStruct(T2, %d initial values)", len(data)/2)
+		case k < 5:
+			in := insts[r.Intn(len(insts))]
+			switch r.Intn(3) {
+			case 0:
+				in.a = 1 + r.Intn(1000)
+				in.v.SetAttr("A", goatlang.Int(in.a))
+			case 1:
+				in.b = fmt.Sprintf("s%d", r.Intn(100))
+				in.v.SetAttr("B", goatlang.String(in.b))
+			default:
+				in.c = float64(r.Intn(100)) + 0.5
+				in.v.SetAttr("C", goatlang.Float64(in.c))
+			}
+			what = "SetAttr"
+		case k < 6:
+			in := insts[r.Intn(len(insts))]
+			x := 1 + r.Intn(1000)
+			if _, err := run.h.Call("main.setA", 0, in.v, goatlang.Int(x)); err != nil {
+				run.fail("C19/count", "struct-call-failed", "Call(main.setA, instance, %d) failed: %v", x, err)
+				return
+			}
+			in.a = x
+			what = "a script function assigning t.A"
+		case k < 7:
+			in := insts[r.Intn(len(insts))]
+			rets, err := run.h.Call("main.sumT2", 1, in.v)
+			if err != nil || len(rets) != 1 || rets[0].Int() != in.a+len(in.b) {
+				run.fail("C19/roundtrip", "struct-param", "a script function given a host-built instance with A=%d B=%q computed t.A+len(t.B) = %s, %v", in.a, in.b, core.ValuesString(rets), err)
+				return
+			}
+			what = "a script function reading the instance"
+		default:
+			in := &inst{}
+			var rets []goatlang.Value
+			var err error
+			if r.Bool() {
+				rets, err = run.h.Call("main.mkT2", 1)
+			} else {
+				in.b = fmt.Sprintf("lit%d", r.Intn(100))
+				rets, err = run.h.Call("main.mkT2B", 1, goatlang.String(in.b))
+			}
+			if err != nil || len(rets) != 1 {
+				run.fail("C19/count", "struct-call-failed", "Call(main.mkT2) failed: %v", err)
+				return
+			}
+			in.v = rets[0]
+			insts = append(insts, in)
+			what = "a script literal &T2{...}"
+		}
+		for i, in := range insts {
+			a, b, c := in.v.GetAttr("A"), in.v.GetAttr("B"), in.v.GetAttr("C")
+			if a.Type() != goatlang.TypeInt32 || a.Int() != in.a || b.Type() != goatlang.TypeString || b.String() != in.b || c.Float64() != in.c {
+				run.fail("C19/roundtrip", "struct-fields", "after step %d (%s) instance %d of %d reads back A=%s B=%s C=%s; the values last written to that instance are A=%d B=%q C=%v", step+1, what, i+1, len(insts), describe(a), describe(b), describe(c), in.a, in.b, in.c)
+				return
 			}
 		}
 	}
